@@ -74,3 +74,20 @@ package strconv
 //@   loop 1 decreases dec
 //@   loop 2 decreases dec
 //@   loop 3 decreases num
+
+// ---- ParseFloat: number of bytes consumed (the float value itself is outside the technique)
+// mantissa: sign, digits, at most one '.', digits; fMant(b) is where it ends
+//@ pred fD1(b) := digitEnd(b, sgn(b))
+//@ pred fMant(b) := ite(fD1(b) < len(b) && b[fD1(b)] == '.', digitEnd(b, fD1(b)+1), fD1(b))
+//@ pred fEmpty(b) := fMant(b) == sgn(b) || (fMant(b) == sgn(b)+1 && b[sgn(b)] == '.')
+//@ pred fHasE(b) := fMant(b) < len(b) && (b[fMant(b)] == 'e' || b[fMant(b)] == 'E')
+//@ pred fExpS(b) := fMant(b) + 1 + ite(fMant(b)+1 < len(b) && (b[fMant(b)+1] == '+' || b[fMant(b)+1] == '-'), 1, 0)
+//@ func ParseFloat
+//@   ensures[S]  0 <= result1 && result1 <= len(b)
+//@   ensures[F,C14] @empty: fEmpty(b) ==> result1 == 0
+//@   ensures[F,C14] @mantissa-only: !fEmpty(b) && !fHasE(b) ==> result1 == fMant(b)
+//@   ensures[F,C14] @exponent: !fEmpty(b) && fHasE(b) ==> result1 == fMant(b) || (result1 == digitEnd(b, fExpS(b)) && result1 > fExpS(b))
+//@   loop 1 invariant start == sgn(b) && start <= i && i <= len(b) && (dot == -1 || (start <= dot && dot < i)) && trunk >= -1 && trunk < i
+//@   loop 1 invariant[F] dot == -1 ==> forall(k, start, i, isDig(b[k]))
+//@   loop 1 invariant[F] dot != -1 ==> dot == fD1(b) && b[dot] == '.' && forall(k, start, dot, isDig(b[k])) && forall(k, dot+1, i, isDig(b[k]))
+//@   loop 1 decreases len(b) - i
